@@ -218,6 +218,19 @@ Proof.
   apply Qmult_lt_0_compat; [|exact HR]. change 0 with (inject_Z 0). rewrite <- Zlt_Qlt. lia.
 Qed.
 
+(* the first-guess ramp is the least positive raster multiple whose triangle respects the slew limit *)
+Lemma rise1_least (k : Z) : (1 <= k)%Z ->
+  Qabs area / S <= (inject_Z k * R) * (inject_Z k * R) -> sp_rise1 <= inject_Z k * R.
+Proof.
+  intros Hk H. unfold sp_rise1.
+  assert (Hn : (ceil_sqrt_div (Qabs area / S) R <= k)%Z).
+  { apply ceil_sqrt_div_least; [exact HR|exact absS_nonneg|lia|exact H]. }
+  destruct (Qmax_case (inject_Z (ceil_sqrt_div (Qabs area / S) R) * R) R) as [E|E]; rewrite E.
+  - apply Qmult_le_compat_r; [|lra]. rewrite <- Zle_Qle. exact Hn.
+  - rewrite <- (Qmult_1_l R) at 1. apply Qmult_le_compat_r; [|lra].
+    change 1 with (inject_Z 1). rewrite <- Zle_Qle. exact Hk.
+Qed.
+
 (* everything the theorems need about the returned tuple *)
 Lemma shortest_spec amp r fl f : shortest_params area S G R = (amp, r, fl, f) ->
   f = r /\
@@ -228,7 +241,11 @@ Lemma shortest_spec amp r fl f : shortest_params area S G R = (amp, r, fl, f) ->
      [0, G], area-equivalent duration T (area = h*T), ramps at least h/S *)
   (forall h T, 0 <= h -> h <= G -> 0 < T -> Qabs area == h * T -> r + fl + f <= T + h / S + 2 * R) /\
   (* the designer's own result passes the limit checks that follow *)
-  Qabs amp <= G + eps /\ Qabs amp / r <= S.
+  Qabs amp <= G + eps /\ Qabs amp / r <= S /\
+  (* minimality of the chosen ramp: never longer than the shortest slew-feasible triangle ramp, and on
+     the plateau branch (flat > 0) the shortest raster multiple that ramps to the returned amplitude *)
+  r <= sp_rise1 /\
+  (0 < fl -> forall k : Z, (1 <= k)%Z -> Qabs amp <= S * (inject_Z k * R) -> r <= inject_Z k * R).
 Proof.
   unfold shortest_params. fold sp_rise1.
   destruct rise1_facts as [k [Hk [Ek [Hsq Hpred]]]].
@@ -290,12 +307,21 @@ Proof.
       rewrite E2, Eec. ring. }
     split.
     { unfold amp. field. lra. }
-    split; [|split].
+    split; [|split; [|split; [|split]]].
     2:{ pose proof eps_nonneg. fold amp. lra. }
     2:{ fold amp r2. apply Qdiv_le_iff; [apply Qlt_le_trans with R; [exact HR|unfold r2; apply Qmax_ub_r]|].
         assert (Ht : t <= r2).
         { apply Qle_trans with (ceil_raster t R); [apply ceil_raster_ge; exact HR|unfold r2; apply Qmax_ub_l]. }
         unfold t in Ht. apply Qdiv_le_iff in Ht; [|exact HS]. rewrite Qmult_comm. exact Ht. }
+    2:{ fold amp r2. exact Hr2. }
+    2:{ intros _ k' Hk' Hle. fold amp in Hle. fold amp r2.
+        assert (Htk : t <= inject_Z k' * R).
+        { unfold t. apply Qdiv_le_iff; [exact HS|]. rewrite Qmult_comm. exact Hle. }
+        assert (Hck : ceil_raster t R <= inject_Z k' * R) by (apply ceil_raster_least; assumption).
+        assert (HRk : R <= inject_Z k' * R).
+        { rewrite <- (Qmult_1_l R) at 1. apply Qmult_le_compat_r; [|lra].
+          change 1 with (inject_Z 1). rewrite <- Zle_Qle. exact Hk'. }
+        unfold r2. destruct (Qmax_case (ceil_raster t R) R) as [X|X]; rewrite X; assumption. }
     intros h T Hh0 HhG HT Earea.
     (* e + r2 < |area|/G + G/S + 2R <= T + h/S + 2R *)
     assert (Hgoal : Qabs area / G + G / S <= T + h / S).
@@ -329,11 +355,13 @@ Proof.
     { exists 0%Z. split; [lia|]. change (inject_Z 0) with 0. ring. }
     split.
     { field. lra. }
-    split; [|split].
+    split; [|split; [|split; [|split]]].
     2:{ apply Qltb_false in B. exact B. }
     2:{ rewrite (Qabs_div_pos _ _ Hr1). apply Qdiv_le_iff; [exact Hr1|]. apply Qdiv_le_iff; [exact Hr1|].
         apply (Qdiv_le_iff (Qabs area) S _ HS) in Hsq.
         assert (X : S * sp_rise1 * sp_rise1 == sp_rise1 * sp_rise1 * S) by ring. rewrite X. exact Hsq. }
+    2:{ lra. }
+    2:{ intro C. exfalso. lra. }
     intros h T Hh0 HhG HT Earea.
     assert (Hy : 0 <= h / S) by (apply Qdiv_pos_nonneg; assumption).
     destruct (Z.eq_dec k 1) as [K1|K1].
@@ -407,39 +435,67 @@ Lemma OK_inj4 {A B C D : Type} (a a' : A) (b b' : B) (c c' : C) (d d' : D) :
   @OK (A * B * C * D) (a, b, c, d) = OK (a', b', c', d') -> a = a' /\ b = b' /\ c = c' /\ d = d'.
 Proof. intro H. inversion H. repeat split; reflexivity. Qed.
 
+(* the two forms of the area + duration feasibility test (see Model/Trap.v) *)
+Lemma dur_tol_range : 0 <= dur_tol /\ dur_tol <= eps.
+Proof. pose proof eps_nonneg. unfold dur_tol. destruct trap_possible_tolerant; lra. Qed.
+
+Lemma dur_flat_spec d r f : r + f - dur_tol <= d ->
+  (r + f <= d /\ dur_flat d r f == d - r - f) \/
+  (d < r + f /\ r + f <= d + eps /\ dur_flat d r f == 0).
+Proof.
+  pose proof eps_nonneg as He. unfold dur_tol, dur_flat. destruct trap_possible_tolerant; intro H.
+  - destruct (Qmax_spec (d - r - f) 0) as [[L E]|[L E]]; rewrite E.
+    + destruct (Qeq_dec (d - r - f) 0) as [Z|Z].
+      * left. split; lra.
+      * right. assert (d - r - f < 0) by (destruct (Qle_lt_or_eq _ _ L) as [X|X]; [exact X|contradiction]).
+        repeat split; lra.
+    + left. split; [lra|reflexivity].
+  - left. split; [lra|reflexivity].
+Qed.
+
+Lemma dur_flat_nonneg d r f : r + f - dur_tol <= d -> 0 <= dur_flat d r f.
+Proof. intro H. destruct (dur_flat_spec d r f H) as [[L E]|[_ [_ E]]]; rewrite E; lra. Qed.
+
 Lemma area_path_inv A dur ft r0 f0 G S R amp ro fl fo :
   area_path A dur ft r0 f0 G S R = OK (amp, ro, fl, fo) ->
   (exists d a' r fls f, dur = Some d /\ ft = None /\ r0 = None /\
-      shortest_params A S G R = (a', r, fls, f) /\ r + fls + f <= d /\ fl = d - r - f /\
+      shortest_params A S G R = (a', r, fls, f) /\ r + fls + f <= d /\ fl = dur_flat d r f /\
       ~ r / 2 + f / 2 + fl == 0 /\ amp = A / (r / 2 + f / 2 + fl) /\ ro = Some r /\ fo = Some f) \/
   (exists d r f, dur = Some d /\ ft = None /\ r0 = Some r /\
-      f = match f0 with None => r | Some f => f end /\ r + eps < d /\ r + f <= d /\ fl = d - r - f /\
+      f = match f0 with None => r | Some f => f end /\ r + eps < d /\ r + f - dur_tol <= d /\
+      fl = dur_flat d r f /\
       ~ r / 2 + f / 2 + fl == 0 /\ amp = A / (r / 2 + f / 2 + fl) /\ ro = Some r /\ fo = Some f) \/
   (exists t r f, ft = Some t /\ r0 = Some r /\ f0 = Some f /\ fl = t /\
-      ~ r / 2 + f / 2 + t == 0 /\ amp = A / (r / 2 + f / 2 + t) /\ ro = Some r /\ fo = Some f) \/
+      ~ r / 2 + f / 2 + t == 0 /\ amp = A / (r / 2 + f / 2 + t) /\ ro = Some r /\ fo = Some f /\
+      (trap_flat_checks_duration = true -> forall d, dur = Some d -> Qabs (d - (r + t + f)) <= eps)) \/
   (exists r f, dur = None /\ ft = None /\ shortest_params A S G R = (amp, r, fl, f) /\
       ro = Some r /\ fo = Some f).
 Proof.
   unfold area_path. cbv zeta. destruct dur as [d|], ft as [t|].
-  - (* flat_time given (duration ignored) *)
+  - (* flat_time given *)
     destruct r0 as [r|]; [|discriminate]. destruct f0 as [f|]; [|discriminate].
+    destruct (trap_flat_checks_duration && Qltb eps (Qabs (d - (r + t + f)))) eqn:C; [discriminate|].
     destruct (isz _) eqn:Z; [discriminate|]. apply isz_false in Z.
-    intro H. apply OK_inj4 in H. destruct H as (<- & <- & <- & <-). right. right. left. exists t, r, f. repeat split; auto.
+    intro H. apply OK_inj4 in H. destruct H as (<- & <- & <- & <-). right. right. left. exists t, r, f.
+    repeat split; auto. intros Hc d' Hd'. injection Hd' as <-. rewrite Hc in C. cbn [andb] in C.
+    apply Qltb_false in C. exact C.
   - destruct r0 as [r|].
     + destruct (Qle_bool d (r + eps)) eqn:L; [discriminate|]. apply Qle_bool_false in L.
       set (f := match f0 with None => r | Some f => f end).
       destruct (isz (d - (1 # 2) * r - (1 # 2) * f)) eqn:Z1; [discriminate|].
-      destruct (Qle_bool (r + f) d && _) eqn:P; [|discriminate]. cbn [negb].
+      destruct (Qle_bool (r + f - dur_tol) d && _) eqn:P; [|discriminate]. cbn [negb].
       apply andb_true_iff in P. destruct P as [P1 _]. apply Qle_bool_iff in P1.
-      destruct (isz (r / 2 + f / 2 + (d - r - f))) eqn:Z; [discriminate|]. apply isz_false in Z.
+      destruct (isz (r / 2 + f / 2 + dur_flat d r f)) eqn:Z; [discriminate|]. apply isz_false in Z.
       intro H. apply OK_inj4 in H. destruct H as (<- & <- & <- & <-). right. left. exists d, r, f. repeat split; auto.
     + destruct (shortest_params A S G R) as [[[a' r] fls] f] eqn:SP.
       destruct (Qltb d (r + fls + f)) eqn:L; [discriminate|]. apply Qltb_false in L.
       destruct (isz _) eqn:Z; [discriminate|]. apply isz_false in Z.
       intro H. apply OK_inj4 in H. destruct H as (<- & <- & <- & <-). left. exists d, a', r, fls, f. repeat split; auto.
   - destruct r0 as [r|]; [|discriminate]. destruct f0 as [f|]; [|discriminate].
+    rewrite andb_false_r.
     destruct (isz _) eqn:Z; [discriminate|]. apply isz_false in Z.
-    intro H. apply OK_inj4 in H. destruct H as (<- & <- & <- & <-). right. right. left. exists t, r, f. repeat split; auto.
+    intro H. apply OK_inj4 in H. destruct H as (<- & <- & <- & <-). right. right. left. exists t, r, f.
+    repeat split; auto. intros _ d' Hd'. discriminate.
   - destruct (shortest_params A S G R) as [[[a' r] fls] f] eqn:SP.
     intro H. apply OK_inj4 in H. destruct H as (<- & <- & <- & <-). right. right. right. exists r, f. repeat split; auto.
 Qed.
@@ -640,14 +696,14 @@ Lemma area_path_flat_nonneg A dur ft r0 f0 G S R amp ro fl fo : 0 < S -> 0 < G -
   area_path A dur ft r0 f0 G S R = OK (amp, ro, fl, fo) ->
   (forall t, ft = Some t -> 0 <= t) -> 0 <= fl.
 Proof.
-  intros HS HG HR HP Hreq. apply area_path_inv in HP.
+  intros HS HG HR HP Hreq. apply area_path_inv in HP. pose proof dur_tol_range as [Ht0 _].
   destruct HP as [(d' & a' & r & fls & f & _ & _ & _ & SP & Hmin & -> & _)
                  |[(d' & r & f & _ & _ & _ & _ & _ & Hle & -> & _)
                  |[(t' & r & f & Ct & _ & _ & -> & _)
                  |(r & f & _ & _ & SP & _)]]].
   - destruct (shortest_spec A _ _ _ HS HG HR _ _ _ _ SP) as (_ & _ & (m & Hm & Em) & _).
-    pose proof (raster_mult_nonneg m R fls HR Hm Em). lra.
-  - lra.
+    pose proof (raster_mult_nonneg m R fls HR Hm Em). apply dur_flat_nonneg. lra.
+  - apply dur_flat_nonneg. exact Hle.
   - apply Hreq. exact Ct.
   - destruct (shortest_spec A _ _ _ HS HG HR _ _ _ _ SP) as (_ & _ & (m & Hm & Em) & _).
     exact (raster_mult_nonneg m R fl HR Hm Em).
@@ -691,7 +747,7 @@ Proof.
   apply area_path_inv in HP'. rewrite Eamp.
   destruct HP' as [(d & a' & r & fls & f & _ & _ & _ & _ & _ & _ & Hden & -> & Hro & Hfo)
                  |[(d & r & f & _ & _ & _ & _ & _ & _ & _ & Hden & -> & Hro & Hfo)
-                 |[(t & r & f & _ & _ & _ & -> & Hden & -> & Hro & Hfo)
+                 |[(t & r & f & _ & _ & _ & -> & Hden & -> & Hro & Hfo & _)
                  |(r & f & _ & _ & SP & Hro & Hfo)]]];
     destruct (ramps_of_some _ _ _ _ _ _ _ _ Hro Hfo Hrf) as [-> ->].
   - apply div_den; exact Hden.
@@ -755,24 +811,29 @@ Proof.
   intros H Ht. trap_start H. rewrite (path_flat_requested a _ _ _ _ t HP Ht) in Hflat. exact Hflat.
 Qed.
 
-(* with a requested duration (and no flat_time) every path sets flat_time = duration - rise - fall *)
+(* with a requested duration (and no flat_time): flat_time = duration - rise - fall on the amplitude path,
+   [dur_flat] (the same, possibly clamped at 0 when the feasibility test is eps-tolerant) on the area path *)
 Lemma path_duration a amp ro fl fo d : path_of a = OK (amp, ro, fl, fo) ->
   0 < eff_max_grad a -> 0 < eff_max_slew a -> 0 < raster_of a ->
   a_duration a = Some d -> a_flat_time a = None ->
-  exists r f, ro = Some r /\ fo = Some f /\ fl = d - r - f /\ (a_amplitude a = None -> 0 <= fl).
+  exists r f, ro = Some r /\ fo = Some f /\
+    ((a_amplitude a <> None /\ fl = d - r - f) \/
+     (a_amplitude a = None /\ r + f - dur_tol <= d /\ fl = dur_flat d r f /\ (rise0_of a = None -> r + f <= d))).
 Proof.
-  intros HP HG HS HR Hd Hft.
+  intros HP HG HS HR Hd Hft. pose proof dur_tol_range as [Ht0 _].
   destruct (path_cases a _ HP) as [[A HA]|[[FA HA]|[h HA]]].
-  - destruct (path_area a A _ HA HP) as (HP' & _ & _).
+  - destruct (path_area a A _ HA HP) as (HP' & _ & Hna).
     apply area_path_inv in HP'.
     destruct HP' as [(d' & a' & r & fls & f & Cd & _ & _ & SP & Hmin & -> & _ & _ & Hro & Hfo)
-                   |[(d' & r & f & Cd & _ & _ & _ & _ & Hle & -> & _ & _ & Hro & Hfo)
+                   |[(d' & r & f & Cd & _ & C0 & _ & _ & Hle & -> & _ & _ & Hro & Hfo)
                    |[(t' & r & f & C & _)
                    |(r & f & C & _)]]].
-    + rewrite Hd in Cd. injection Cd as <-. exists r, f. repeat split; auto. intros _.
+    + rewrite Hd in Cd. injection Cd as <-. exists r, f. split; [exact Hro|]. split; [exact Hfo|]. right.
       destruct (shortest_spec A _ _ _ HS HG HR _ _ _ _ SP) as (_ & _ & (m & Hm & Em) & _).
-      pose proof (raster_mult_nonneg m _ fls HR Hm Em). lra.
-    + rewrite Hd in Cd. injection Cd as <-. exists r, f. repeat split; auto. intros _. lra.
+      pose proof (raster_mult_nonneg m _ fls HR Hm Em).
+      split; [exact Hna|]. split; [lra|]. split; [reflexivity|]. intros _. lra.
+    + rewrite Hd in Cd. injection Cd as <-. exists r, f. split; [exact Hro|]. split; [exact Hfo|]. right.
+      split; [exact Hna|]. split; [exact Hle|]. split; [reflexivity|]. intro C. rewrite C in C0. discriminate.
     + rewrite Hft in C. discriminate.
     + rewrite Hd in C. discriminate.
   - destruct (path_flat_area a FA _ HA HP) as (HP' & _ & _). apply flat_area_path_inv in HP'.
@@ -780,20 +841,50 @@ Proof.
   - destruct (path_amplitude a h _ HA HP) as (HP' & _ & _). apply amplitude_path_inv in HP'.
     destruct HP' as (_ & _ & [(d' & r & f & Cd & _ & Hro & Hfo & ->)|(C & _)]);
       [|rewrite Hd in C; discriminate].
-    rewrite Hd in Cd. injection Cd as <-. exists r, f. repeat split; auto.
-    intro C. rewrite HA in C. discriminate.
+    rewrite Hd in Cd. injection Cd as <-. exists r, f. split; [exact Hro|]. split; [exact Hfo|]. left.
+    split; [rewrite HA; discriminate|reflexivity].
 Qed.
 
 Lemma trap_duration_l a g d : make_trap a = OK g -> a_duration a = Some d -> a_flat_time a = None ->
   d <= t_rise g + t_flat g + t_fall g /\ t_rise g + t_flat g + t_fall g <= d + eps /\
-  (a_amplitude a = None \/ t_rise g + t_fall g <= d -> t_rise g + t_flat g + t_fall g == d).
+  (t_rise g + t_fall g <= d -> t_rise g + t_flat g + t_fall g == d) /\
+  (a_amplitude a = None -> rise0_of a = None -> t_rise g + t_flat g + t_fall g == d) /\
+  (trap_possible_tolerant = false -> a_amplitude a = None -> t_rise g + t_flat g + t_fall g == d).
 Proof.
   intros H Hd Hft. trap_start H. pose proof eps_nonneg as He.
-  destruct (path_duration a _ _ _ _ d HP HG HS HR Hd Hft) as (r & f & Hro & Hfo & Efl & Hnn).
+  destruct (path_duration a _ _ _ _ d HP HG HS HR Hd Hft) as (r & f & Hro & Hfo & Hcases).
   destruct (ramps_of_some _ _ _ _ _ _ _ _ Hro Hfo Hrf) as [-> ->].
-  destruct Hflat as [[F0 E]|[F1 [F2 E]]]; rewrite E; clear E; subst fl.
-  - split; [lra|]. split; [lra|]. intros _. ring.
-  - split; [lra|]. split; [lra|]. intros [C|C]; [specialize (Hnn C); lra|lra].
+  destruct Hcases as [(Hamp & Efl)|(Hamp & Hle & Efl & Hch)].
+  - (* amplitude path: plain difference, clamp of (-eps, 0) *)
+    destruct Hflat as [[F0 E]|[F1 [F2 E]]]; rewrite E; clear E; subst fl.
+    + split; [lra|]. split; [lra|]. split; [intros _; ring|].
+      split; [intro C; contradiction|intros _ C; contradiction].
+    + split; [lra|]. split; [lra|]. split; [intro C; lra|].
+      split; [intro C; contradiction|intros _ C; contradiction].
+  - (* area path *)
+    pose proof (dur_flat_nonneg d r f Hle) as Hnn. rewrite <- Efl in Hnn.
+    rewrite (flat_rel_keep _ _ Hflat Hnn). rewrite Efl.
+    destruct (dur_flat_spec d r f Hle) as [[L E]|[L1 [L2 E]]]; rewrite E.
+    + split; [lra|]. split; [lra|]. split; [intros _; ring|]. split; [intros _ _; ring|intros _ _; ring].
+    + split; [lra|]. split; [lra|]. split; [intro C; lra|].
+      split; [intros _ C; specialize (Hch C); lra|].
+      intros Ht _. exfalso. unfold dur_tol in Hle. rewrite Ht in Hle. lra.
+Qed.
+
+(* area + flat_time + ramps + duration, when the code checks the redundant duration (proposed repair) *)
+Lemma trap_flat_duration_l a g A d t : trap_flat_checks_duration = true -> make_trap a = OK g ->
+  a_area a = Some A -> a_duration a = Some d -> a_flat_time a = Some t -> 0 <= t ->
+  Qabs (d - (t_rise g + t_flat g + t_fall g)) <= eps.
+Proof.
+  intros Hc H HA Hd Hft Ht. trap_start H.
+  destruct (path_area a A _ HA HP) as (HP' & _ & _). apply area_path_inv in HP'.
+  destruct HP' as [(d' & a' & r & fls & f & _ & C & _)
+                 |[(d' & r & f & _ & C & _)
+                 |[(t' & r & f & Ct & _ & _ & -> & _ & _ & Hro & Hfo & Hchk)
+                 |(r & f & _ & C & _)]]]; try (rewrite Hft in C; discriminate).
+  rewrite Hft in Ct. injection Ct as <-.
+  destruct (ramps_of_some _ _ _ _ _ _ _ _ Hro Hfo Hrf) as [-> ->].
+  rewrite (flat_rel_keep _ _ Hflat Ht). apply (Hchk Hc d Hd).
 Qed.
 
 Definition supplied_timing (a : targs) : Prop :=
@@ -810,7 +901,7 @@ Proof.
       rewrite Hr0, Hf0 in HP'.
       destruct HP' as [(d' & a' & r' & fls & f & _ & _ & C & _)
                      |[(d' & r' & f & _ & _ & C & -> & _ & _ & _ & _ & _ & Hro & Hfo)
-                     |[(t' & r' & f & _ & C & C' & _ & _ & _ & Hro & Hfo)
+                     |[(t' & r' & f & _ & C & C' & _ & _ & _ & Hro & Hfo & _)
                      |(r' & f & Cd & Cf & _)]]].
       + discriminate.
       + injection C as <-. split; assumption.
@@ -837,7 +928,9 @@ Lemma trap_timing_as_requested_l a g : make_trap a = OK g ->
      (0 <= t /\ t_flat g = t) \/ (- eps < t /\ t < 0 /\ t_flat g = 0)) /\
   (forall d, a_duration a = Some d -> a_flat_time a = None ->
      d <= t_rise g + t_flat g + t_fall g /\ t_rise g + t_flat g + t_fall g <= d + eps /\
-     (a_amplitude a = None \/ t_rise g + t_fall g <= d -> t_rise g + t_flat g + t_fall g == d)) /\
+     (t_rise g + t_fall g <= d -> t_rise g + t_flat g + t_fall g == d) /\
+     (a_amplitude a = None -> rise0_of a = None -> t_rise g + t_flat g + t_fall g == d) /\
+     (trap_possible_tolerant = false -> a_amplitude a = None -> t_rise g + t_flat g + t_fall g == d)) /\
   (supplied_timing a ->
      (forall r, a_rise a = Some r -> ~ r == 0 -> t_rise g = r /\ (a_fall a = None -> t_fall g = r)) /\
      (forall f, a_fall a = Some f -> ~ f == 0 -> t_fall g = f /\ (a_rise a = None -> t_rise g = f))).
@@ -1027,7 +1120,7 @@ Proof.
   unfold area_path.
   destruct (shortest_params A (eff_max_slew a) (eff_max_grad a) (raster_of a)) as [[[amp r] fl] f] eqn:SP.
   destruct (shortest_spec A _ _ _ HS HG HR _ _ _ _ SP)
-    as (Ef & (k & Hk & Ek) & (m & Hm & Em) & _ & _ & Lg & Ls).
+    as (Ef & (k & Hk & Ek) & (m & Hm & Em) & _ & _ & Lg & Ls & _).
   subst f. unfold finish.
   assert (Hr : 0 < r).
   { rewrite Ek. apply Qmult_lt_0_compat; [|exact HR]. change 0 with (inject_Z 0). rewrite <- Zlt_Qlt. lia. }
